@@ -594,7 +594,7 @@ Section Bound.
     - apply costs_clocks. change 0 with (0 + 0). apply costs_bind; [cost_step|]. intros; cost_step.
     - apply costs_clocks. replace B_acquire with (B_acquire + 0) by lia.
       apply costs_bind; [apply costs_attempt, costs_check_init|].
-      intros [a|e|]; try cost_step. change 0 with (0 + 0). apply costs_bind; cost_step.
+      intros [a|e|]; try cost_step. change 0 with (0 + 0). apply costs_bind; [cost_step|intros; cost_step].
   Qed.
 
   (* the calls whose arithmetic can overflow (dev profile: panic) *)
@@ -614,6 +614,6 @@ Section Bound.
     - change 0 with (0 + 0). apply costs_bind; [cost_step|]. intros; cost_step.
     - replace B_acquire with (B_acquire + 0) by lia.
       apply costs_bind; [apply costs_attempt, costs_check_init|].
-      intros [a|e|]; try cost_step. change 0 with (0 + 0). apply costs_bind; cost_step.
+      intros [a|e|]; try cost_step. change 0 with (0 + 0). apply costs_bind; [cost_step|intros; cost_step].
   Qed.
 End Bound.
